@@ -125,12 +125,17 @@ SOL_INPUTS = {"Collins_Stewart": ["gammadown3", "rho", "press", "Kdown3"],
               "Rosquist_Jantzen": ["gammadown3", "Kdown3", "Tdown4"]}
 
 
+# quantities a user may supply although aurel can compute them (frozen like every other input)
+DERIVED_INPUTS = ["st_Riemann_down4", "s_Ricci_down3", "gammaup3", "Ktrace", "gdown4", "gup4", "s_Gamma_udd3",
+                  "s_Riemann_down3", "st_Ricci_down4", "Kup3", "uup4", "Tdown4", "st_Gamma_udd4", "gammadet"]
+
+
 def input_keys(cfg):
     """names of the frozen inputs of a configuration"""
     if cfg["inputs"].startswith("sol:"):
-        return list(SOL_INPUTS[cfg["inputs"][4:]])
+        return list(SOL_INPUTS[cfg["inputs"][4:]]) + list(cfg.get("derived", ()))
     return [k for k in (e if isinstance(e, str) else e[0] for e in INPUT_SETS[cfg["inputs"]])
-            if k not in cfg.get("drop", ())]
+            if k not in cfg.get("drop", ())] + list(cfg.get("derived", ()))
 
 
 def description_keys():
@@ -371,6 +376,10 @@ def gen_config(rng, tier):
     keys = [e if isinstance(e, str) else e[0] for e in INPUT_SETS[name]]
     if keys and name != "partial_shift" and rng.random() < 0.3:
         cfg["drop"] = rng.sample(keys, rng.randrange(1, min(4, len(keys)) + 1))
+    # the user may also supply (and freeze) quantities aurel could compute itself, e.g. a Riemann tensor read from
+    # elsewhere: values taken from a fresh instance; they are frozen inputs like any other
+    if rng.random() < 0.35:
+        cfg["derived"] = rng.sample(DERIVED_INPUTS, rng.randrange(1, 3))
     return cfg
 
 
@@ -427,6 +436,16 @@ def build(cfg):
             k, f = (e, e) if isinstance(e, str) else e
             if k not in cfg["drop"]:
                 rel.h_assign(k, fields[f].copy())
+    if cfg.get("derived"):
+        _, core, _ = aurel_modules()
+        src = core.AurelCore(fd, verbose=False, vacuum=cfg["vacuum"], Lambda=cfg["Lambda"], tetrad=cfg["tetrad"], lmax=2)
+        for k, v in rel.data.items():
+            src.data[k] = np.array(v, copy=True)
+        src.freeze_data()
+        for k in cfg["derived"]:
+            if k not in rel.data:
+                with np.errstate(all="ignore"):
+                    rel.h_assign(k, np.array(src[k], copy=True))
     rel.h_freeze()
     return rel, fields
 
@@ -663,6 +682,129 @@ def rnd_correspondence(ctx, n):
                    kind="correspondence")
 
 
+# --------------------------------------------------------------------------
+# every quantity a user may supply and freeze, followed by the requests that read it
+CONSUMERS = ["st_Weyl_down4", "Kretschmann", "st_Riemann_uddd4", "st_Riemann_uudd4", "st_Ricci_down4", "st_RicciS",
+             "Einsteindown4", "Hamiltonian", "Momentumup3", "s_RicciS", "s_Ricci_down3", "eweyl_u_down4", "bweyl_u_down4",
+             "Ttrace", "rho_n", "Stressdown3_n", "udown4", "st_covd_udown4", "theta", "dtKtrace", "s_Riemann_uddd3"]
+
+
+def derived_input_histories(ctx):
+    """For every quantity of DERIVED_INPUTS: supply it (value from a fresh instance) as a frozen input next to the
+    ordinary inputs, then request the quantities that read it, in a shuffled order, under gentle cache settings; the
+    Monitor checks after every request that every frozen entry is still there with the same bytes."""
+    found = 0
+    for D in DERIVED_INPUTS:
+        for vacuum in (False, True):
+            if vacuum and D not in ("st_Riemann_down4", "s_Ricci_down3", "gdown4", "gup4"):
+                continue
+            cfg = {"N": 8, "order": 2, "inputs": "vacuumlike" if vacuum else "tensors", "variant": 1, "vacuum": vacuum,
+                   "Lambda": 0.0 if vacuum else 0.3, "tetrad": "quasi-Kinnersley", "period": 4, "thr_scalars": 10 ** 6,
+                   "drop": [], "derived": [D]}
+            cons = list(CONSUMERS)
+            ctx.rng.shuffle(cons)
+            ops = [["get", c] for c in cons] + [["get", D]]
+            with np.errstate(all="ignore"):
+                rel, fails = execute(cfg, ops, watch_values=True)
+            ctx.count("derived_input_histories")
+            for f in fails[:2]:
+                found += 1 if ctx.violation("frozen input %s supplied by the user (vacuum=%s): %s %s" % (D, vacuum, f[0], f[1]),
+                                            {"kind": "history", "cfg": cfg, "ops": ops, "failure": [str(x) for x in f]},
+                                            fingerprint(f)) else 0
+    return found
+
+
+# --------------------------------------------------------------------------
+# the time-series driver: the inputs of a step are frozen before ANY user code or request runs
+HEAVY = ["Kretschmann", "st_Weyl_down4", "st_Riemann_uddd4", "Hamiltonian", "Momentumup3", "s_RicciS", "dtKtrace",
+         "st_Gamma_udd4", "Einsteindown4", "s_Ricci_down3_bssnok", "eweyl_n_down3", "bweyl_n_down3", "theta", "shear2"]
+CHEAP = ["Ktrace", "gammadet", "Kup3", "betadown3", "gdet", "A2", "rho_n", "press_n", "nup4", "s_Gamma_udd3"]
+
+
+def driver_histories(ctx, n):
+    """over_time with custom variables whose functions issue long request chains under aggressive cache settings.
+    Oracle (independent of the model): inside every custom function, after its requests, every input of the step is
+    still in rel.data with the bytes the user supplied and importance 0; and every built-in column equals what a
+    fresh AurelCore holding only that step's (frozen) inputs returns for the single request."""
+    aurel, core, _ = aurel_modules()
+    found = 0
+    for h in range(n):
+        rng = ctx.rng
+        N, order = 6, 2
+        fd = make_fd(N, order)
+        inputs = rng.choice(["tensors", "components", "noshift", "vacuumlike"])
+        nsteps = rng.randint(1, 3)
+        period = rng.choice([1, 2, 3, 5, 10, 20])
+        thr = rng.choice([1e-9, 1e-6, 4.0])
+        steps = [analytic_fields(fd, v) for v in range(nsteps)]
+        keys = [(e, e) if isinstance(e, str) else e for e in INPUT_SETS[inputs]]
+        data = {"it": np.arange(nsteps)}
+        for k, f in keys:
+            data[k] = [steps[i][f].copy() for i in range(nsteps)]
+        sums = [{k: checksum(data[k][i]) for k, _ in keys} for i in range(nsteps)]
+        fails = []
+        chain = [rng.choice(HEAVY) for _ in range(rng.randint(1, 3))] + [rng.choice(CHEAP) for _ in range(rng.randint(2, 8))]
+        rng.shuffle(chain)
+        calls = {"n": 0}
+
+        def custom(rel):                       # over_time insists on exactly one parameter
+            if not any(k in rel.data for k, _ in keys):
+                # over_time first tries every custom function on an EMPTY AurelCore (validation of the signature /
+                # output); that is not a time step and holds no inputs
+                return np.array(rel["Ktrace"]) + 1.0
+            i = calls["n"] % nsteps
+            calls["n"] += 1
+            for k, _ in keys:                   # at the entry of user code the step's inputs are all there, frozen
+                if k not in rel.data or rel.var_importance.get(k, 1.0) != 0:
+                    fails.append(("input absent or not frozen when the custom function was entered", k, "", i))
+            for q in chain:
+                rel[q]
+                for k, _ in keys:
+                    if k not in rel.data:
+                        fails.append(("input evicted while a custom variable was being evaluated", k, q, i))
+                    elif rel.var_importance.get(k, 1.0) != 0:
+                        fails.append(("input not frozen (importance %r) while a custom variable was being evaluated"
+                                      % rel.var_importance.get(k, 1.0), k, q, i))
+                if fails:
+                    break
+            return np.array(rel["Ktrace"]) + 1.0
+
+        builtins = [rng.choice(CHEAP), rng.choice(["Hamiltonian", "Ktrace", "gammadet"])]
+        cfg = {"inputs": inputs, "nsteps": nsteps, "period": period, "thr": thr, "chain": chain, "builtins": builtins}
+        try:
+            out = aurel.over_time(dict(data), fd, vars=[{"cust": custom}] + builtins, estimates=[], verbose=False,
+                                  clear_cache_every_nbr_calc=period, memory_threshold_inGB=thr)
+        except Exception as ex:  # noqa
+            fails.append(("over_time raised %r" % ex, "", "", -1))
+            out = None
+        ctx.count("driver_histories")
+        if out is not None and not fails:
+            for i in range(nsteps):
+                for k, _ in keys:
+                    if checksum(data[k][i]) != sums[i][k]:
+                        fails.append(("input array of the step altered", k, "", i))
+                rel = core.AurelCore(fd, verbose=False)
+                for k, _ in keys:
+                    rel.data[k] = data[k][i]
+                rel.freeze_data()
+                for b in builtins + ["Ktrace"]:
+                    want = np.asarray(rel[b])
+                    got = np.asarray(out[b][i]) if b in out else None
+                    if b in out and not np.allclose(got, want, rtol=1e-12, atol=1e-12):
+                        fails.append(("column %s of step %d differs from a fresh calculation on the step's inputs "
+                                      "(max |diff| %.3g): a default replaced an input" % (b, i, float(np.max(np.abs(got - want)))),
+                                      b, "", i))
+                want = np.asarray(rel["Ktrace"]) + 1.0
+                if not np.allclose(np.asarray(out["cust"][i]), want, rtol=1e-12, atol=1e-12):
+                    fails.append(("custom column of step %d differs from Ktrace + 1 of the step's inputs" % i, "cust", "", i))
+        for f in fails[:2]:
+            found += 1 if ctx.violation("time-series driver (%s, period %d, threshold %g GB, chain %s): %s %s"
+                                        % (inputs, period, thr, chain, f[0], f[1]),
+                                        {"kind": "driver", "cfg": cfg, "failure": [str(x) for x in f]},
+                                        {"site": "over_time", "what": f[0].split(" (")[0][:60]}) else 0
+    return found
+
+
 def run(ctx):
     ctx.trusted += ["Lean 4.33 kernel; axioms propext, Classical.choice, Quot.sound",
                     "Model/Cache.lean is hand-written after core.py:185-323; tied to the real AurelCore by trace replay",
@@ -683,9 +825,16 @@ def run(ctx):
         ctx.leanchecker([MODULE])
     rnd_correspondence(ctx, ctx.budget(300, 3000))
     correspondence(ctx, "C03", ctx.budget(40, 200), ctx.budget(30, 60))
+    with np.errstate(all="ignore"):
+        driver_histories(ctx, ctx.budget(6, 40))
+    derived_input_histories(ctx)
 
 
 def replay(ctx, obj):
+    if obj.get("kind") == "driver":
+        n = driver_histories(ctx, 20)
+        print("replay: %d driver failure(s) now" % n)
+        return 1 if n else 0
     if "cfg" not in obj:
         print("replay: not a history replay (kind=%s): %s" % (obj.get("kind"), obj.get("what")))
         return 1
